@@ -1,3 +1,7 @@
 """run potable's main() (used through tools/treepy.py so that the package is bound to the tree under test)"""
+import os, sys
+sys.path.insert(0, os.path.dirname(os.path.dirname(os.path.abspath(__file__))))
+from mc import seams
+seams.process_environment()
 from atsim.potentials.tools.potable import main
 main()
